@@ -101,7 +101,7 @@ TextColAlgo(rows, c) == rows # <<>> /\ rows[1][c].cls = "TEXT"        \* dtype d
 CellAlgo(rows, r, c, o, hasNull) ==
     IF rows[r][c].cls = "NULLEQ" /\ c > 1 /\ o.null_policy = "strict" /\ hasNull /\ ~TextColAlgo(rows, c) THEN -1
     ELSE CASE rows[r][c].cls = "FIN" -> rows[r][c].id [] rows[r][c].cls = "NULLEQ" -> -2
-           [] rows[r][c].cls = "NEAR" -> -3 [] OTHER -> 1000000 + rows[r][c].id
+           [] rows[r][c].cls = "NEAR" -> -3 [] rows[r][c].cls = "ZERO" -> -4 [] OTHER -> 1000000 + rows[r][c].id
 CurvesAlgo(text, o) ==
     LET rows == RowsAlgo(text)  dcl == DeclaredAlgo(text)  d == Len(dcl)
         c == IF rows = <<>> THEN 0 ELSE Len(rows[1])
